@@ -6,7 +6,7 @@ from vlib import log
 ACTS = [("announce", m) for m in ("ok", "dupidx", "zeroidx", "thr0", "thrbig", "expired", "idmismatch", "assignabsent", "garbage", "empty", "s255")] + \
        [("chunk", d) for d in ("right", "wrong", "empty", "huge")] + [("store", None)] + \
        [("ctlfetch", m) for m in ("ok", "dupidx", "zeroidx", "garbage", "expired")] + [("other", k) for k in range(8)] + \
-       [("ctlemptyout", None)] + [("ctlmalformed", k) for k in range(15)]
+       [("ctlemptyout", None)] + [("ctlmalformed", k) for k in range(15)] + [("ctlabort", 0), ("ctlabort", 1), ("peerabort", 0)]
 
 
 class Scripter:
@@ -28,6 +28,9 @@ class Scripter:
             return "other k=%d p=%d%s" % (arg, self.peer, s)
         if op == "ctlemptyout":
             return "ctlemptyout c=%d" % c
+        if op in ("ctlabort", "peerabort"):
+            self.peer += 1
+            return "%s k=%d" % (op, arg if op == "ctlabort" else self.peer)
         return "ctlmalformed k=%d" % arg
 
     def from_hist(self, h, sock=0):
@@ -45,6 +48,10 @@ class Scripter:
                 lines.append(self.line("other", self.rng.randrange(8), 1, sock))
             elif op == "ctlemptyout":
                 lines.append(self.line("ctlemptyout", None))
+            elif op == "ctlabort":
+                lines.append(self.line("ctlabort", self.rng.randrange(2)))
+            elif op == "peerabort":
+                lines.append(self.line("peerabort", 0))
             else:
                 lines.append(self.line("ctlmalformed", self.rng.randrange(15)))
         return lines
@@ -65,7 +72,13 @@ def run_driver(chk, beh, label, flavour="plain"):
         events = vlib.read_ndjson(trace)
         if rc not in (0, 3):
             # sanitizer abort or crash: report with the operations executed so far
-            kind = "sanitizer" if "Sanitizer" in out or "runtime error" in out else "crash-rc%d" % rc
+            kind = "sanitizer" if "Sanitizer" in out or "runtime error" in out else "killed-by-signal/SIGPIPE" if rc in (141, -13) else "crash-rc%d" % rc
+            if rc in (141, -13):
+                chk.report("C35.killed-by-signal/SIGPIPE", "the process hosting node and daemon was killed by SIGPIPE while a remote end disconnected", [str(e) for e in events[-6:]], replay_name="C35.sigpipe")
+                events_all += events
+                done = sum(1 for e in events if e["op"] == "reset")
+                todo = todo[max(done, 1):]
+                continue
             m = re.search(r"(AddressSanitizer|UndefinedBehaviorSanitizer|runtime error)[^\n]*", out)
             chk.report("C35.%s/%s" % (kind, (m.group(0)[:60] if m else "")), "driver died (rc=%d) while delivering remote input: %s" % (rc, out[-600:]),
                        [str(e) for e in events[-6:]], replay_name="C35.%s" % kind)
@@ -92,7 +105,7 @@ def run(chk):
     thorough = chk.tier == "thorough"
     r = vlib.mc("NodeInputs", "MC_NodeInputs.cfg", workers=2, timeout=300)
     chk.add_model("NodeInputs as coded (index validation, guarded key reconstruction, guarded control handler): C35_NoThrow", r)
-    for cfg in ("dev_noguard", "dev_nocontrolguard"):
+    for cfg in ("dev_noguard", "dev_nocontrolguard", "dev_sigpipe"):
         vlib.mc("NodeInputs", "MC_NodeInputs_%s.cfg" % cfg, expect_violation="C35_NoThrow", workers=2, timeout=300)
     vlib.mc("NodeInputs", "MC_NodeInputs_reach_poisonchunk.cfg", expect_violation="Reach_PoisonThenChunk", workers=2, timeout=300)
     vlib.mc("NodeInputs", "MC_NodeInputs_reach_poisonfetch.cfg", expect_violation="Reach_PoisonHeldThenFetch", workers=2, timeout=300)
